@@ -465,8 +465,6 @@ func func_decimalSlice(rtParams FunctionParameterTypes, val any, decimalSliceFun
 					continue
 				}
 				goto notArrayOfNumbers
-			case float64:
-				newSlc = append(newSlc, decimal.NewFromFloat(t))
 			default:
 				goto notArrayOfNumbers
 			}
@@ -860,6 +858,10 @@ func func_ParseYAML(rtParams FunctionParameterTypes, val any) (any, error) {
 		err := yaml.Unmarshal([]byte(s), &nm)
 		if err != nil {
 			return nil, fmt.Errorf("value is not YAML: %w", err)
+		}
+
+		for k, v := range nm {
+			nm[k] = stringKeyedMaps(v)
 		}
 
 		return nm, nil
@@ -2159,7 +2161,27 @@ func getMapValues(input any) ([]any, error) {
 	// Iterate over all keys.
 	for i, key := range v.MapKeys() {
 		// Use the string key and the corresponding value.
-		result[i] = v.MapIndex(key).Interface()
+		result[i] = normalizeValue(v.MapIndex(key).Interface())
 	}
 	return result, nil
+}
+
+// stringKeyedMaps converts the map[interface{}]interface{} values that yaml.v2 produces for nested
+// objects to map[string]any, so that a document parsed from YAML behaves like one parsed from JSON.
+func stringKeyedMaps(val any) any {
+	switch t := val.(type) {
+	case map[interface{}]interface{}:
+		out := make(map[string]any, len(t))
+		for k, v := range t {
+			out[fmt.Sprint(k)] = stringKeyedMaps(v)
+		}
+		return out
+	case []interface{}:
+		for i, v := range t {
+			t[i] = stringKeyedMaps(v)
+		}
+		return t
+	}
+
+	return val
 }
